@@ -26,7 +26,7 @@ var (
 	taxCodeRegexps = []*regexp.Regexp{
 		regexp.MustCompile(`^E\d{9}$`),
 	}
-	taxCodeSuffixes = regexp.MustCompile(`(MWST|TVA|IVA)$`)
+	taxCodeSuffixes = regexp.MustCompile(`(MWST|TVA|IVA)+$`)
 )
 
 // normalizeTaxIdentity will remove any whitespace or separation characters from
